@@ -78,9 +78,30 @@ def check_state(bp, hist, dealer, vul, props, bad, where):
                 bad.append(('C03', f'{where}: a contract is reported before the end'))
 
 
+def replay_two(c):
+    """two auctions in one process: the second one must be a fresh auction"""
+    from bridge_env import Bid, BiddingPhase, BiddingPhaseState, Player, Vul
+    props = c.get('props') or ['C01', 'C02', 'C03']
+    A = BiddingPhase(dealer=Player(c['dealer']), vul=Vul(c['vul']))
+    B = BiddingPhase(dealer=Player(c['dealer_b']), vul=Vul(c['vul_b'])) if c['when'] == 'before' else None
+    for call in c['calls']:
+        try:
+            A.take_bid(Bid(call))
+        except Exception:
+            break
+    if B is None:
+        B = BiddingPhase(dealer=Player(c['dealer_b']), vul=Vul(c['vul_b']))
+    bad = []
+    check_state(B, [], c['dealer_b'], c['vul_b'], None, bad, f'second auction (constructed {c["when"]} the calls of the first)')
+    got, _ = _run([c['b_call']] + [PASS] * 4, c['dealer_b'], c['vul_b'], props, bp=B)
+    bad = [m for t, m in bad if any(p in t for p in props)] + got
+    return bool(bad), f'first auction dealer {Player(c["dealer"])} calls {[str(Bid(x)) for x in c["calls"]]}; second auction dealer {Player(c["dealer_b"])}: ' + '; '.join(bad[:4])
+
+
 def replay(c):
     from bridge_env import Bid, BiddingPhase, BiddingPhaseState, Player, Vul
-    bad = []
+    if c.get('kind') == 'two_auctions':
+        return replay_two(c)
     dealer, vul = c['dealer'], c['vul']
     if c.get('kind') == 'after_end':
         # drive some auction to its end that has the requested last bid / doubling state
@@ -89,9 +110,54 @@ def replay(c):
         calls = seq + [c['call']]
     else:
         calls = list(c['history']) + ([c['call']] if c.get('call') else [])
-    # close the auction with passes so that the consequences for the final contract become visible
-    calls = calls + [PASS] * 4
-    bp = BiddingPhase(dealer=Player(dealer), vul=Vul(vul))
+    props = c.get('props') or ['C01', 'C02', 'C03']
+    # close the auction with passes so that the consequences for the final contract become visible; if that shows nothing
+    # (state left behind by a call can need a particular continuation to surface), try every continuation of up to four
+    # calls over {pass, the cheapest legal bid of each strain, double, redouble}, each closed with passes
+    bad, shown = _run(calls + [PASS] * 4, dealer, vul, props)
+    if not bad and c.get('kind') != 'after_end':
+        import itertools
+        base_hist = _accepted(calls, dealer)
+        seen = 0
+        for cont in _continuations(base_hist, dealer, 4):
+            seen += 1
+            bad, shown = _run(calls + cont + [PASS] * 4, dealer, vul, props)
+            if bad or seen > 6000:
+                break
+    return bool(bad), f'dealer {Player(dealer)} vul {Vul(vul)} calls {[str(Bid(x)) for x in shown]}: ' + '; '.join(bad[:4])
+
+
+def _accepted(calls, dealer):
+    hist = []
+    for call in calls:
+        L = laws(hist, dealer)
+        if not L['ended'] and L['legal'](call):
+            hist.append(call)
+    return hist
+
+
+def _continuations(hist, dealer, depth):
+    L = laws(hist, dealer)
+    if L['ended'] or depth == 0:
+        return
+    cands = [PASS]
+    for strain in range(5):
+        for level in range(7):
+            b = level * 5 + strain + 1
+            if L['legal'](b):
+                cands.append(b)
+                break
+    cands += [x for x in (X, XX) if L['legal'](x)]
+    for cnd in cands:
+        yield [cnd]
+        for rest in _continuations(hist + [cnd], dealer, depth - 1):
+            yield [cnd] + rest
+
+
+def _run(calls, dealer, vul, props, bp=None):
+    from bridge_env import Bid, BiddingPhase, BiddingPhaseState, Player, Vul
+    bad = []
+    bp = bp or BiddingPhase(dealer=Player(dealer), vul=Vul(vul))
     hist = []
     check_state(bp, hist, dealer, vul, None, bad, 'initially')
     for i, call in enumerate(calls):
@@ -126,6 +192,5 @@ def replay(c):
         check_state(bp, hist, dealer, vul, None, bad, f'after call {i} ({Bid(call)})')
         if len(bad) > 20:
             break
-    props = c.get('props') or ['C01', 'C02', 'C03']
     bad = [m for t, m in bad if any(p in t for p in props)]
-    return bool(bad), f'dealer {Player(dealer)} vul {Vul(vul)} calls {[str(Bid(x)) for x in calls]}: ' + '; '.join(bad[:4])
+    return bad, calls
